@@ -49,6 +49,9 @@ type PubSpec struct {
 	Config  []byte       `json:"config"` // the config list (opaque bytes)
 	Edits   []EditSpec   `json:"edits,omitempty"`
 	Fresh   bool         `json:"fresh,omitempty"` // use a new publisher (empty zone-id cache)
+	// CancelAt (last publish of a plan only): the caller's context ends when the
+	// CancelAt-th request of this call arrives at the API (-1: before the call).
+	CancelAt int `json:"cancel_at,omitempty"`
 }
 
 // EnumSpec: execute the plan once without faults, then once per request
